@@ -38,27 +38,67 @@ def unq(t):
     return t
 
 
+def outer_polars(ft, t):
+    """the outermost Polar-valued sub-terms of t (what an index / reflection computation is a function of)"""
+    cands = []
+    for x in walk(t):
+        if x[0] == "call" and isinstance(x[1], str) and (x[1].endswith("polar::Polar::new") or x[1].endswith("::to_polar")):
+            cands.append(x)
+        elif x[0] in ("param", "phi") and (ft.tyof(x) or "").endswith("polar::Polar"):
+            cands.append(x)
+    keys = {}
+    for c in cands:
+        keys[strip_site(c)] = c
+    out = []
+    for k, c in keys.items():
+        inside = False
+        for k2, c2 in keys.items():
+            if k2 != k and any(strip_site(y) == k for y in walk(c2)):
+                inside = True
+        if not inside:
+            out.append(c)
+    return out
+
+
 def selection(ft, run, side, poly_callee, pt_slot, ft_slot, st_slot, own_pt):
-    """check the selection logic of one direction; returns the polar term used"""
+    """check the selection logic of one direction; returns the polar term used.  The triangle index and the reflection flag
+    are recognised by their role (the arguments both triangle lookups share), not by the name of the helper computing them."""
     pc = the_call(ft, poly_callee)
-    fti = the_call(ft, GFTI)
-    rf = the_call(ft, REFL)
     gft = the_call(ft, GFT)
     gst = the_call(ft, GST)
     w = where(ft.fn["span"])
-    if None in (pc, fti, rf, gft, gst):
-        run.bad("C15.S1", side + "-shape", "expected exactly one call each of the polyhedral map, get_face_triangle_index, should_reflect, get_face_triangle, get_spherical_triangle", w)
+    if None in (pc, gft, gst):
+        run.bad("C15.S1", side + "-shape", "expected exactly one call each of the polyhedral map, get_face_triangle, get_spherical_triangle", w)
         return None
-    polar_i, polar_r = fti.args[1], rf.args[1]
-    run.inst("C15.S1", side + "-one-polar-value", strip_site(polar_i) == strip_site(polar_r), "triangle index and reflection flag are computed from the same polar value", where(fti.span))
-    idx_t = ("call", GFTI, tuple(fti.args), None)
-    ref_t = ("call", REFL, tuple(rf.args), None)
+    idx_t, ref_t = unq(gft.args[1]), peel(gft.args[2])
+    # every Polar value this function hands to a helper (a call, or a helper body spliced in) other than Polar's own
+    # accessors: the index helper and the reflection helper must receive the same one
+    handed = {}
+    own = ft.fn.get("own_blocks", len(ft.blocks))     # only what this function's own code passes on, not a helper's internals
+    for c in ft.calls():
+        if not c.callee or "polar::Polar::" in c.callee or c.callee in (GFT, GST, poly_callee) or c.callee not in ft.facts.fns or c.block >= own:
+            continue
+        g = ft.facts.fns[c.callee]
+        for ai, a in enumerate(c.args):
+            if ai + 1 < len(g["locals"]) and g["locals"][ai + 1]["ty"].lstrip("&").endswith("polar::Polar"):
+                handed[strip_site(peel(a))] = peel(a)
+    for b in sorted(ft.cfg.reach):
+        if b >= own:
+            continue
+        for i_, st in enumerate(ft.blocks[b]["stmts"]):
+            if st["k"] == "assign" and st.get("inlined_arg") and (st["place"].get("ty") or "").lstrip("&").endswith("polar::Polar"):
+                v = peel(ft.rvalue(st["rv"], b, i_))
+                handed[strip_site(v)] = v
+    same = len(handed) == 1
+    run.inst("C15.S1", side + "-one-polar-value", same, "triangle index and reflection flag are computed from the same polar value: helpers receive %s" % (
+        [fmt(x)[:60] for x in handed.values()]), where(gft.span))
+    polar_i = list(handed.values())[0] if handed else None
 
     def is_idx(t):
-        return strip_site(unq(t)) == strip_site(idx_t)[:3] or strip_site(unq(t))[:3] == strip_site(idx_t)[:3]
+        return strip_site(unq(t)) == strip_site(idx_t) and idx_t[0] not in ("const",)
 
     def is_ref(t):
-        return strip_site(unq(t))[:3] == strip_site(ref_t)[:3]
+        return strip_site(peel(t)) == strip_site(ref_t) and ref_t[0] not in ("const",)
     okf = is_idx(gft.args[1]) and is_ref(gft.args[2]) and const_int(gft.args[3]) == 0
     run.inst("C15.S1", side + "-face-triangle", okf, "get_face_triangle(%s, %s, squashed=%s)" % (fmt(gft.args[1])[:40], fmt(gft.args[2])[:40], fmt(gft.args[3])), where(gft.span))
     oks = is_idx(gst.args[1]) and gst.args[2] == ("param", 3) and is_ref(gst.args[3])
@@ -100,7 +140,7 @@ def run(ctx):
     facts, run = ctx.facts, ctx.run
     run.explanation = EXPL
     run.rule_text = "C15.S1 SIB selection agreement, S2 SIB frame pairing, S3 PROV squashed-variant discipline"
-    for p in (FWD, INV, GFT, GST, GFTI, REFL, CST, PFWD, PINV):
+    for p in (FWD, INV, GFT, GST, CST, PFWD, PINV):
         if p not in facts.fns:
             run.missing("C15", p)
             return
@@ -265,4 +305,7 @@ def run(ctx):
                          where(fs.fn["span"]))
             except _U as e:
                 run.bad("C15.S4", "safe_acos-continuity", "cannot evaluate the branch formulas (%s) - unrecognised idiom" % e, where(fs.fn["span"]))
+    # S5: the barycentric map differences pair like components of the triangle corners
+    from .wrap_common import check_component_pairing
+    check_component_pairing(facts, run, "C15.S5", ["a5::core::coordinate_transforms::face_to_barycentric"])
     run.floor("C15", "rule instances", len(run.instances), 18)
